@@ -204,12 +204,74 @@ theorem ubuntu_without_lsb_release_partial :
        [49, 52, 46, 48, 52], [49, 52, 46, 49, 48], [49, 53, 46, 48, 52], [49, 53, 46, 49, 48]] := by
   decide +kernel
 
+/-! ### every row of the release tables, on generated files -/
+
+/-- Tie between the two samplers: the text the extractor derives from each
+    parsed Go expression of the aws / oracle / photon scanner tables is the
+    text `Re.sample` derives from the translated expression, and every
+    expression of the tables has one. -/
+theorem regex_samples_agree :
+    sampleTable JoinReleases.aws.regexes = JoinReleases.aws.regexSamples ∧
+    sampleTable JoinReleases.oracle.regexes = JoinReleases.oracle.regexSamples ∧
+    sampleTable JoinReleases.photon.regexes = JoinReleases.photon.regexSamples ∧
+    JoinReleases.aws.regexSamples.length = JoinReleases.aws.regexes.length ∧
+    JoinReleases.oracle.regexSamples.length = JoinReleases.oracle.regexes.length ∧
+    JoinReleases.photon.regexSamples.length = JoinReleases.photon.regexes.length := by
+  decide +kernel
+
+def sameSet (a b : List Bytes) : Bool := a.all b.contains && b.all a.contains
+
+/-- Amazon Linux, EVERY row of the scanner's table and every release of the
+    updater set (the two lists name the same releases): a file made of the
+    text the row's expression matches is recognised as that release (no
+    earlier row of the table takes it), the Distribution passes the matcher's
+    Filter and agrees with the updater's on every Query() field, and does not
+    join another release's advisories. -/
+theorem aws_every_release_row :
+    sameSet (JoinReleases.aws.regexes.map (·.1)) JoinReleases.aws.releases = true ∧
+    awsSampleRows.length = JoinReleases.aws.releases.length ∧
+    tableOk JoinMatchers.aws awsSampleRows = true ∧ noCross JoinMatchers.aws awsSampleRows = true := by
+  decide +kernel
+
+/-- Oracle Linux, every row of the scanner's table against the parser's
+    `platformToDist` of `Oracle Linux <release>`: the releases the scanner
+    knows are exactly the platforms the parser knows. -/
+theorem oracle_every_release_row :
+    sameSet (JoinReleases.oracle.regexes.map fun p => oraclePlatform p.1) (JoinReleases.oracle.platformToDist.map (·.1)) = true ∧
+    oracleSampleRows.length = JoinReleases.oracle.regexes.length ∧
+    tableOk JoinMatchers.oracle oracleSampleRows = true ∧ noCross JoinMatchers.oracle oracleSampleRows = true := by
+  decide +kernel
+
+/-- Photon, every row of the scanner's table and every release of the updater set. -/
+theorem photon_every_release_row :
+    sameSet (JoinReleases.photon.regexes.map (·.1)) JoinReleases.photon.releases = true ∧
+    photonSampleRows.length = JoinReleases.photon.releases.length ∧
+    tableOk JoinMatchers.photon photonSampleRows = true ∧ noCross JoinMatchers.photon photonSampleRows = true := by
+  decide +kernel
+
+/-- SLES, every major version the updater factory's file-name expression
+    admits (11 … 99 without a zero digit, 81 of them): an os-release whose
+    CPE_NAME is `cpe:/o:suse:sles:<major>:sp3` joins the advisories of
+    `suse.linux.enterprise.server.<major>.xml.gz` and no other major's. -/
+theorem suse_every_el_release :
+    suseELAllRows.length = 81 ∧
+    tableOk JoinMatchers.suse suseELAllRows = true ∧ noCross JoinMatchers.suse suseELAllRows = true := by
+  decide +kernel
+
+/-- openSUSE Leap 15.5, 15.6, 15.7, 15.10, 16.0, 16.3. -/
+theorem suse_leap_releases :
+    suseLeapRows.length = suseLeapVersions.length ∧
+    tableOk JoinMatchers.suse suseLeapRows = true ∧ noCross JoinMatchers.suse suseLeapRows = true := by
+  decide +kernel
+
 /-- The release tables and the matcher each belongs to. -/
 def ecosystems : List (MatcherT × List Row) := [
   (JoinMatchers.alpine, alpineRows), (JoinMatchers.alpine, alpineIssueRows),
   (JoinMatchers.debian, debianRows), (JoinMatchers.debian, debianDistrolessRows),
   (JoinMatchers.ubuntu, ubuntuRows), (JoinMatchers.aws, awsRows), (JoinMatchers.oracle, oracleRows),
-  (JoinMatchers.photon, photonRows), (JoinMatchers.suse, suseRows)]
+  (JoinMatchers.photon, photonRows), (JoinMatchers.suse, suseRows),
+  (JoinMatchers.aws, awsSampleRows), (JoinMatchers.oracle, oracleSampleRows), (JoinMatchers.photon, photonSampleRows),
+  (JoinMatchers.suse, suseELAllRows), (JoinMatchers.suse, suseLeapRows)]
 
 theorem ecosystems_checked :
     ∀ e ∈ ecosystems, distroMatcher e.1 = true ∧ tableOk e.1 e.2 = true ∧ noCross e.1 e.2 = true := by
@@ -222,9 +284,14 @@ theorem ecosystems_checked :
   have h7 := oracle_table_checked
   have h8 := photon_table_checked
   have h9 := suse_table_checked
+  have h10 := aws_every_release_row
+  have h11 := oracle_every_release_row
+  have h12 := photon_every_release_row
+  have h13 := suse_every_el_release
+  have h14 := suse_leap_releases
   intro e he
   simp only [ecosystems, List.mem_cons, List.mem_nil_iff, or_false] at he
-  rcases he with rfl | rfl | rfl | rfl | rfl | rfl | rfl | rfl | rfl <;> simp_all
+  rcases he with rfl | rfl | rfl | rfl | rfl | rfl | rfl | rfl | rfl | rfl | rfl | rfl | rfl | rfl <;> simp_all
 
 /-! ## (3) every record, every advisory of a listed release -/
 
